@@ -92,7 +92,6 @@ type aput struct {
 
 func (s *sdbSess) accountBlock(puts []aput, twice, abandon bool) {
 	bs := statedb.NewStateDB(s.store, s.long.GetRoot(), false)
-	sort.Slice(puts, func(i, j int) bool { return bytes.Compare(puts[i].id, puts[j].id) < 0 })
 	for _, p := range puts {
 		s.log = append(s.log, fmt.Sprintf("#put %x %d %x", p.id, p.st.Nonce, p.st.Balance))
 	}
@@ -105,17 +104,28 @@ func (s *sdbSess) accountBlock(puts []aput, twice, abandon bool) {
 	for k, v := range prevStates {
 		s.states[k] = v
 	}
-	var parts []string
+	// the same account may be put several times in a block: stateBuffer.export keeps the latest entry per key
+	touched := map[string]bool{}
+	var order [][]byte
 	for _, p := range puts {
 		id, st := p.id, p.st
 		if err := bs.PutState(types.AccountID(types.ToHashID(id)), st); err != nil {
 			s.fail("PutState: " + err.Error())
 			return
 		}
-		h := stateHash(st)
-		s.ref[string(id)] = h
+		s.ref[string(id)] = stateHash(st)
 		s.states[string(id)] = st
-		parts = append(parts, hex.EncodeToString(id)+"="+hex.EncodeToString(h))
+		if !touched[string(id)] {
+			touched[string(id)] = true
+			order = append(order, id)
+		} else {
+			s.run.Count("sdb-account-put-twice-in-a-block")
+		}
+	}
+	sort.Slice(order, func(i, j int) bool { return bytes.Compare(order[i], order[j]) < 0 })
+	var parts []string
+	for _, id := range order {
+		parts = append(parts, hex.EncodeToString(id)+"="+hex.EncodeToString(s.ref[string(id)]))
 	}
 	op := "update " + strings.Join(parts, " ")
 	upd := func() string {
@@ -224,6 +234,10 @@ func accountSession(run *vh.Run) {
 		}
 		if len(puts) == 0 {
 			puts = append(puts, aput{univ[rng.Intn(len(univ))], &types.State{Nonce: uint64(rng.Intn(1 << 20))}})
+		}
+		if rng.Chance(1, 4) {
+			// the same account again, later in the block, with another state
+			puts = append(puts, aput{puts[rng.Intn(len(puts))].id, &types.State{Nonce: uint64(rng.Intn(1 << 20)), Balance: rng.Bytes(3)}})
 		}
 		s.accountBlock(puts, rng.Chance(1, 6), rng.Chance(1, 8))
 		if len(s.commits) > 1 && rng.Chance(1, 5) {
